@@ -24,7 +24,7 @@ OUTSIDE = ["that LAPACK/ARPACK deliver eigenpairs at all, and 'closest to the sh
            "complex Hermitian normalisation where q^T B q may vanish", "n > 3", "eigenvalue multiplicity"]
 ASSUMPTIONS = ["float64 as exact reals", "oracle eigenvectors are non-zero, q^T B q > 0 for the pairs returned by the oracle "
                "(true for real vectors and positive definite B)", "eigh returns ascending eigenvalues (LAPACK contract)"]
-ITEM_TIMEOUT = {"quick": 110, "thorough": 600}
+ITEM_TIMEOUT = {"quick": 240, "thorough": 600}
 
 
 def items(tier):
